@@ -228,19 +228,19 @@ def canon_index(j):
     )
 
 
-def canon_structure(j):
-    """structure view: tables, charge, sectors with shapes, sign table, labels; no data"""
+def canon_structure(j, phases=True):
+    """structure view: tables, charge, sectors with shapes, sign table (optional), labels; no data"""
     return (
         j["sym"], j["fermi"], tuple(canon_index(i) for i in j["indices"]), tuple(j["charge"]),
         tuple(sorted((tuple(map(tuple, b["sector"])), tuple(b["shape"])) for b in j["blocks"])),
-        tuple(sorted((tuple(map(tuple, s)), p) for s, p in j.get("phases", []))),
+        tuple(sorted((tuple(map(tuple, s)), p) for s, p in j.get("phases", []))) if phases else (),
         tuple((l, d) for l, d in j.get("oddpos", [])),
     )
 
 
-def canon_array(j, drop_zero=True, tables=True, labels=True, structure=False):
+def canon_array(j, drop_zero=True, tables=True, labels=True, structure=False, phases=True):
     if structure:
-        return canon_structure(j)
+        return canon_structure(j, phases=phases)
     """Value view of an array in protocol form: pending signs multiplied in, blocks sorted
     by sector, all-zero blocks dropped (missing ≡ zero).  Hashable."""
     ph = {tuple(map(tuple, s)): p for s, p in j.get("phases", [])}
